@@ -633,7 +633,7 @@ PROPS = {
         "level": "other", "explanation": "", "assumptions": [],
     },
     "C11": {
-        "module": "DnsModel.Theorems.C11", "theorems": [],
+        "module": "DnsModel.Theorems.C11", "theorems": ["Dns.C11.walk_delete", "Dns.C11.second_delete", "Dns.C11.delete_void_untouched", "Dns.C11.emptied_absent", "Dns.C11.still_accepted", "Dns.C11.plain_of_accepted", "Dns.delWalk_refines", "Dns.PlainObj.delete_at", "Dns.absWalk_terminates", "Dns.absWalk_deleted_gone", "Dns.absWalk_yields_survivors", "Dns.absWalk_perm"],
         "families": [{"name": "delete-walks", "quick": 0, "thorough": 0, "fixed": True}],
         "oracle": oracle_c11, "nontrivial": lambda c, a: "delete" in c, "shrink": False,
         "rule": "every subset of the records of a section of size 0..5 deleted from within one walk, for the three record sections and the question, pointer-free and compressed, OPT absent/first/last; exhaustive in both tiers",
